@@ -193,9 +193,9 @@ def _detailed_tag_parser(text: str, lineno: int, start_index: int) -> Token:
                 take_char()  # }
                 break
             else:
-                # False alarm, just a string
-                content = take_until_any(QUOTE_CHARS)
-                result_content.append(content)
+                # False alarm, just a lone `%`. Take only this one character, so that
+                # we don't skip over the actual closing `%}` if it comes before the next quote.
+                result_content.append(take_char())
                 continue
 
         # Take regular content until we hit a quote or potential closing tag
